@@ -29,7 +29,9 @@ CONSTANTS
     Outs,         \* pairs <<output concentration unit key, output time unit>>
     Modes,        \* "inline" (constants inside the system) / "named" (constants passed as parameters)
     EqTemplates,  \* equilibria for the acceptance part
-    EqWrongs
+    EqWrongs,
+    CallKinds,    \* kinds of calls made on one solver object (see CallVar)
+    MaxCalls      \* length of the call history of a solver object
 
 VARIABLES kstage, sys, cond, conf, khist
 kvars == <<kstage, sys, cond, conf, khist>>
@@ -210,6 +212,52 @@ Output(oc, ot) ==
     /\ KLog([op |-> "output", oc |-> oc, ot |-> ot], E_Output(oc, ot))
     /\ kstage' = "done" /\ UNCHANGED <<sys, cond, conf, vars>>
 
+(* --- one solver object of the alternative builder, called several times ---                 *)
+(* The object (validate + unit_aware_solve of one system in one registry) is made once; every  *)
+(* call brings its own constants, concentrations and end time as quantities.  The object has   *)
+(* NO memory: whatever was asked before, a call whose constants all have the right dimension   *)
+(* is answered (and its answer depends on the physical problem only, so it equals the answer   *)
+(* of a fresh object, in any registry), and a call with a constant of the wrong dimension is   *)
+(* refused.  The expected record of a call is a function of the call alone.                    *)
+IsCall(call) ==
+    /\ Len(call.ks) = Len(sys) /\ \A j \in 1..Len(call.ks) : IsUExpr(call.ks[j].ux)
+    /\ \A s \in SubstSet : IsUExpr(call.conc[s].ux) /\ UnitQ(call.conc[s]).dim = ConcDim
+    /\ IsUExpr(call.t1.ux) /\ UnitQ(call.t1).dim = T1
+CallAccepted(call) == \A j \in 1..Len(sys) : AcceptsRate(Order(sys[j].rx), UnitQ(call.ks[j]))
+RecsOf(call) == [j \in 1..Len(sys) |-> [rx |-> sys[j].rx, k |-> call.ks[j]]]
+TermsOf(recs, conc, s) ==
+    LET js == SelectSeq([j \in 1..Len(recs) |-> j], LAMBDA j : Net(recs[j].rx, s) # 0)
+    IN  [i \in 1..Len(js) |-> [c |-> Net(recs[js[i]].rx, s), r |-> RateSI(recs[js[i]], conc)]]
+\* the physical problem a call poses: everything in SI.  Equal problems must get equal answers.
+Phys(call) == [k |-> [j \in 1..Len(sys) |-> SIValue(call.ks[j])],
+               c |-> [s \in Used |-> SIValue(call.conc[s])], t |-> SIValue(call.t1)]
+E_Solve(call) == IF CallAccepted(call) THEN [accept |-> TRUE, phys |-> Phys(call)] ELSE [accept |-> FALSE]
+E_Validate(call) == IF CallAccepted(call)
+                    THEN [accept |-> TRUE, rates |-> [s \in SubstSet |-> TermsOf(RecsOf(call), call.conc, s)]]
+                    ELSE [accept |-> FALSE]
+QOut(q) == [mag |-> q.mag, ux |-> q.ux]
+CallOut(call) == [ks |-> [j \in 1..Len(call.ks) |-> QOut(call.ks[j])],
+                  conc |-> [s \in SubstSet |-> QOut(call.conc[s])], t1 |-> QOut(call.t1)]
+IsCallOp(a) == a.op \in {"solve", "validate"}
+NCalls == Cardinality({ i \in 1..Len(khist) : IsCallOp(khist[i].a) })
+
+MakeSolver(reg) ==
+    /\ kstage = "built" /\ IsReg(reg) /\ Buildable("named")
+    /\ conf' = [name |-> conf.name, reg |-> reg, mode |-> "solver"]
+    /\ KLog([op |-> "solver", reg |-> reg], [ok |-> TRUE])
+    /\ kstage' = "solver" /\ UNCHANGED <<sys, cond, vars>>
+Solve(call) ==
+    /\ kstage = "solver" /\ IsCall(call)
+    /\ KLog([op |-> "solve", call |-> CallOut(call)], E_Solve(call))
+    /\ UNCHANGED <<kstage, sys, cond, conf, vars>>          \* the object is as it was
+Validate(call) ==
+    /\ kstage = "solver" /\ IsCall(call)
+    /\ KLog([op |-> "validate", call |-> CallOut(call)], E_Validate(call))
+    /\ UNCHANGED <<kstage, sys, cond, conf, vars>>
+FinishSolver ==
+    /\ kstage = "solver" /\ NCalls >= 1
+    /\ kstage' = "done" /\ UNCHANGED <<sys, cond, conf, khist, vars>>
+
 ------------------------------------------------------------------------------
 (* generation *)
 Cyc(seq, i) == seq[((i - 1) % Len(seq)) + 1]
@@ -232,12 +280,35 @@ GenSetSystem == \E name \in Systems, tn \in KTimes, cn \in KConcs, w \in (Wrongs
                      SetSystem(name, [j \in 1..Len(SysLib[name]) |->
                                         [rx |-> RxLib[SysLib[name][j]], k |-> Written(KSI[j], KuxFor(name, tn, cn, w)[j])]])
 GenSetConditions == \E plan \in CPlans, tn \in TUnits :
-                     SetConditions([s \in SubstSet |-> Written(CSI[s], CuxFor(plan)[s])],
+                     (Modes \ {"accept", "solver"}) # {} /\ SetConditions([s \in SubstSet |-> Written(CSI[s], CuxFor(plan)[s])],
                                    Written(<<0, 1>>, <<F(tn, 1)>>), Written(T1SI, <<F(tn, 1)>>))
-GenPhysicalRate == \E reg \in KRegs, mode \in (Modes \ {"accept"}) : PhysicalRate(reg, mode)
+GenPhysicalRate == \E reg \in KRegs, mode \in (Modes \ {"accept", "solver"}) : PhysicalRate(reg, mode)
 GenOutput == \E o \in Outs : Output(ConcUx[o[1]], <<F(o[2], 1)>>)
 
+\* calls: the physical problem of the module ("good"), the same problem written in other units
+\* ("good2"), another problem in the units of "good" ("goodval"), and calls in which one constant has a
+\* wrong dimension ("bad": the first one, concentration power off; "bad2": the last one, per time squared)
+KSI2 == <<<<1, 2>>, <<9, 10>>, <<5, 4>>, <<2, 3>>>>
+AllCallKinds == {"good", "good2", "goodval", "bad", "bad2"}
+CallVar(v) ==
+    LET shift == IF v \in {"good2", "bad2"} THEN 2 ELSE 0
+        n == Len(sys)
+        kux(j) == LET order == Order(sys[j].rx)
+                      t == Cyc(TimeSeq, j + shift)  c == Cyc(ConcKeys, j + shift)
+                  IN  IF v = "bad" /\ j = 1 THEN WrongUx("conc-", order, c, t)
+                      ELSE IF v = "bad2" /\ j = n THEN WrongUx("time2", order, c, t)
+                      ELSE RateUx(order, c, t)
+        ksi(j) == IF v = "goodval" THEN KSI2[j] ELSE KSI[j]
+    IN  [ ks |-> [j \in 1..n |-> Written(ksi(j), kux(j))],
+          conc |-> [s \in SubstSet |-> Written(CSI[s], CuxFor(shift)[s])],
+          t1 |-> Written(T1SI, <<F(Cyc(TimeSeq, 1 + shift), 1)>>) ]
+GenMakeSolver == \E reg \in KRegs : "solver" \in Modes /\ MakeSolver(reg)
+GenSolve == \E v \in CallKinds : NCalls < MaxCalls /\ Solve(CallVar(v))
+GenValidate == \E v \in (CallKinds \cap {"good", "bad"}) : NCalls < MaxCalls /\ Validate(CallVar(v))
+GenFinishSolver == NCalls = MaxCalls /\ FinishSolver
+
 KNext == GenRateAccept \/ GenKAccept \/ GenSetSystem \/ Build \/ GenSetConditions \/ GenPhysicalRate \/ GenOutput
+         \/ GenMakeSolver \/ GenSolve \/ GenValidate \/ GenFinishSolver
 KSpec == KInit /\ [][KNext]_<<kvars, vars>>
 
 ------------------------------------------------------------------------------
@@ -255,14 +326,29 @@ WrittenIsPhysical ==
 RefusedOnlyIfWrongDimension ==
     \A i \in 1..Len(khist) : khist[i].a.op = "rate_accept" =>
         (khist[i].e.accept <=> UnitOf(khist[i].a.kux).dim = RateDim(khist[i].e.order))
-KTypeOK == kstage \in {"start", "system", "built", "conditions", "rates", "done"}
+\* a solver object has no memory: equal calls are answered equally wherever they stand in the history,
+\* and a call is refused exactly when one of its constants has a wrong dimension
+SolverHasNoMemory ==
+    \A i, j \in 1..Len(khist) :
+        (IsCallOp(khist[i].a) /\ IsCallOp(khist[j].a) /\ khist[i].a = khist[j].a) => khist[i].e = khist[j].e
+SolverRefusesExactlyWrongDimensions ==
+    \A i \in 1..Len(khist) : IsCallOp(khist[i].a) =>
+        (khist[i].e.accept <=> \A j \in 1..Len(sys) :
+             UnitOf(khist[i].a.call.ks[j].ux).dim = RateDim(Order(sys[j].rx)))
+KTypeOK == kstage \in {"start", "system", "built", "conditions", "rates", "solver", "done"}
 
+RECURSIVE CallClass(_)
+CallClass(i) == IF i > Len(khist) THEN ""
+                ELSE (IF IsCallOp(khist[i].a)
+                      THEN "-" \o (IF khist[i].a.op = "solve" THEN "s" ELSE "v") \o (IF khist[i].e.accept THEN "ok" ELSE "bad")
+                      ELSE "") \o CallClass(i + 1)
 KOps == [i \in 1..Len(khist) |-> khist[i].a]
 KExp == [i \in 1..Len(khist) |-> khist[i].e]
 KClass == IF khist = <<>> THEN "none"
           ELSE IF khist[1].a.op = "rate_accept" THEN "accept-o" \o ToString(khist[1].e.order) \o (IF khist[1].e.accept THEN "-ok" ELSE "-bad")
           ELSE IF khist[1].a.op = "k_accept" THEN "keq-" \o (IF khist[1].e.must_raise THEN "bad" ELSE "ok")
           ELSE IF ~AllAccepted THEN "build-refused"
+          ELSE IF conf.mode = "solver" THEN "solver-" \o conf.name \o CallClass(1)
           ELSE conf.name \o "-" \o conf.mode
 SysOut == [j \in 1..Len(sys) |-> [rx |-> sys[j].rx, k |-> [mag |-> sys[j].k.mag, ux |-> sys[j].k.ux], name |-> "k" \o ToString(j)]]
 CondOut == IF "conc" \in DOMAIN cond
